@@ -162,6 +162,18 @@ func (r *BinaryCopyReader) Read(ctx context.Context) (_ []any, err error) {
 		return nil, err
 	}
 
+	// NOTE: the binary copy stream ends with a trailer consisting out of a
+	// 16-bit integer word containing -1. The client is expected to end the copy
+	// stream once the trailer has been sent.
+	if fields == math.MaxUint16 {
+		err = r.reader.Read()
+		if err == nil {
+			err = errors.New("unexpected copy data after the end-of-data trailer")
+		}
+
+		return nil, err
+	}
+
 	if int(fields) != len(r.scanners) {
 		return nil, fmt.Errorf("unexpected field count, %d columns are defined inside the given table but %d fields were given", len(r.scanners), fields)
 	}
